@@ -18,6 +18,10 @@
       graphs run under recording pass-through handlers (all four methods) with the clause: the body of a dataset
       never runs without an EvaluateRequest for that dataset object (or a derivative of it) having reached the
       handlers.
+(v)   directed probe families run with the sweep (oracle only: the model has neither typing objects nor classes):
+      option_type_probes (every kind of declared type x every way of declaring it x every way the value arises) and
+      dataset_class_probes (a dataset class -- an Evaluatable whose __call__ is instantiation, not evaluate -- as the
+      child of every consumer of the public API: nesting of member requests, transparency, substitution by identity).
 (iv)  nesting: the recording / substituting handlers installed outside, inside or between the library's
       own context managers labrea.cache.disabled() / labrea.logging.disabled() (a user handler replaced by
       a library context entered inside it serves nothing: not installed, for the model); every successful
@@ -798,50 +802,455 @@ def odd_handler_probes():
     return out
 
 
+def declared_types():
+    """what a user may declare as the type of an option: a class of his own, builtin classes, typing constructs
+    (generic aliases, unions, Optional, Literal, Callable, Any, a TypeVar, a NewType), PEP 585 / PEP 604 forms,
+    a string annotation.  Each entry: (name, maker)"""
+    import typing as T
+    out = [("a class", lambda: type("ProbeType", (), {})), ("int", lambda: int), ("typing.Any", lambda: T.Any),
+           ("typing.List[int]", lambda: T.List[int]), ("typing.Optional[int]", lambda: T.Optional[int]),
+           ("typing.Union[int, str]", lambda: T.Union[int, str]), ("typing.Dict[str, int]", lambda: T.Dict[str, int]),
+           ("typing.Tuple[int, ...]", lambda: T.Tuple[int, ...]), ("typing.Sequence[str]", lambda: T.Sequence[str]),
+           ("typing.Literal", lambda: T.Literal["a", 1]), ("typing.Callable", lambda: T.Callable[[int], int]),
+           ("a TypeVar", lambda: T.TypeVar("ProbeVar")), ("a NewType", lambda: T.NewType("ProbeNew", int)),
+           ("list[int]", lambda: list[int]), ("None", lambda: None), ("a string annotation", lambda: "ProbeForward")]
+    try:
+        out.append(("int | None", lambda: eval("int | None")))
+        eval("int | None")
+    except TypeError:
+        out.pop()
+    return out
+
+
 def option_type_probes():
     """the type check of an Option is a request whichever way its value arises (supplied, templated,
-    constant / templated / evaluatable / factory default), alone and as a dependency of a dataset"""
+    constant / templated / evaluatable / factory default), WHATEVER KIND OF OBJECT the declared type is
+    (declared_types) and however it was declared (type= keyword, Option[T] subscript, an annotated member of an
+    option namespace, Option.auto(type=) / Option(KEY, type=) inside a namespace, nested and inherited namespaces),
+    the option evaluated alone, as a dependency of a dataset, and as a member of an evaluated namespace"""
     from labrea import Option, dataset, runtime
     from labrea.type_validation import TypeValidationRequest
     default = runtime._DEFAULT_HANDLERS[TypeValidationRequest]
+    NODEF = object()
     ways = {
-        "value supplied in the dictionary": (lambda T: Option("A", type=T), {"A": 1}, 1),
-        "templated string supplied in the dictionary": (lambda T: Option("S", type=T), {"S": "x{A}", "A": 1}, "x1"),
-        "constant default": (lambda T: Option("Z", 3, type=T), {"A": 1}, 3),
-        "falsy constant default": (lambda T: Option("Z", 0, type=T), {}, 0),
-        "None default": (lambda T: Option("Z", None, type=T), {}, None),
-        "templated string default": (lambda T: Option("Z", "x{A}", type=T), {"A": 1}, "x1"),
-        "evaluatable default": (lambda T: Option("Z", Option("A"), type=T), {"A": 1}, 1),
-        "default_factory": (lambda T: Option("Z", default_factory=lambda: 4, type=T), {}, 4),
+        "value supplied in the dictionary": dict(supplied=1, want=1),
+        "templated string supplied in the dictionary": dict(supplied="x{A}", want="x1"),
+        "constant default": dict(default=3, want=3),
+        "falsy constant default": dict(default=0, want=0),
+        "None default": dict(default=None, want=None),
+        "templated string default": dict(default="x{A}", want="x1"),
+        "evaluatable default": dict(default=lambda: Option("A"), want=1),
+        "default_factory": dict(factory=lambda: 4, want=4),
     }
-    out = []
-    for name, (mk, o, want) in ways.items():
-        for nested in (False, True):
-            T = type("ProbeType", (), {})
-            seen = []
 
-            def h(req, _seen=seen):
-                _seen.append((req.value, req.type))
-                return default(req)
-            try:
-                opt = mk(T)
-                if nested:
-                    def body(x=opt):
-                        return x
-                    body.__name__ = body.__qualname__ = "probe_typed"
-                    subject = dataset(body)
-                else:
-                    subject = opt
-                with runtime.handle(TypeValidationRequest, h):
-                    got = subject.evaluate(o)
-                ok = got == want and any(t is T and v == want for v, t in seen)
-                why = f"evaluation returned {got!r}; the TypeValidationRequest handler saw {len(seen)} request(s), none for this option's type" if not ok else ""
-            except Exception as e:  # noqa
-                ok, why = False, f"probe raised {type(e).__name__}"
-            if not ok:
-                out.append(dict(kind="sweep", desc=f"the type check of an Option ({name}{', as a dependency of a dataset' if nested else ''}) is not issued as a "
-                                                   f"TypeValidationRequest seen by an installed pass-through handler: {why}",
-                                cls="labrea.option.Option", method=f"type-check/{name}/{'nested' if nested else 'direct'}", finding=None))
+    def args_of(way):
+        kw = {}
+        d = way.get("default", NODEF)
+        if d is not NODEF:
+            kw["default"] = d() if callable(d) else d
+        if "factory" in way:
+            kw["default_factory"] = way["factory"]
+        return kw
+
+    def ns(name, body, annotations=None):
+        body = dict(body)
+        if annotations:
+            body["__annotations__"] = dict(annotations)
+        return type(name, (), body)
+
+    # form -> (maker(T, way) -> (subject option, the namespace or None, key path), usable with defaults?)
+    def f_kw(T, way):
+        return Option("Z", type=T, **args_of(way)), None, ("Z",)
+
+    def f_sub(T, way):
+        return Option[T]("Z", **args_of(way)), None, ("Z",)
+
+    def f_annot(T, way):
+        n = Option.namespace(ns("NS", {}, {"Z": T}))
+        return n.Z, n, ("NS", "Z")
+
+    def f_auto(T, way):
+        kw = args_of(way)
+        n = Option.namespace(ns("NS", {"Z": Option.auto(type=T, **kw)}))
+        return n.Z, n, ("NS", "Z")
+
+    def f_inner(T, way):
+        n = Option.namespace(ns("NS", {"Z": Option("Z", type=T, **args_of(way))}))
+        return n.Z, n, ("NS", "Z")
+
+    def f_nested(T, way):
+        n = Option.namespace(ns("NS", {"SUB": ns("SUB", {}, {"Z": T})}))
+        return n.SUB.Z, n, ("NS", "SUB", "Z")
+
+    def f_inherit(T, way):
+        sub = Option.namespace(ns("SUB", {"Z": Option("Z", type=T, **args_of(way))}))
+        n = Option.namespace(ns("NS", {"SUB": sub}))
+        return n.SUB.Z, n, ("NS", "SUB", "Z")
+    forms = {"type= keyword": (f_kw, "all"), "Option[T] subscript": (f_sub, "all"),
+             "annotated member of an option namespace": (f_annot, "supplied"),
+             "Option.auto(type=) in a namespace": (f_auto, "nofactory"), "Option(KEY, type=) in a namespace": (f_inner, "all"),
+             "annotated member of a nested namespace": (f_nested, "supplied"),
+             "Option(KEY, type=) in an inherited namespace": (f_inherit, "all")}
+    out = []
+    for tname, mkT in declared_types():
+        for form, (mk, usable) in forms.items():
+            for name, way in ways.items():
+                if usable == "supplied" and "supplied" not in way:
+                    continue
+                if usable == "nofactory" and "factory" in way:
+                    continue
+                for place in ("direct", "nested", "namespace"):
+                    seen = []
+
+                    def h(req, _seen=seen):
+                        _seen.append((req.value, req.type))
+                        return default(req)
+                    try:
+                        T = mkT()
+                        opt, space, path = mk(T, way)
+                        if place == "namespace" and space is None:
+                            continue
+                        o = {"A": 1}
+                        if "supplied" in way:
+                            cur = o
+                            for part in path[:-1]:
+                                cur = cur.setdefault(part, {})
+                            cur[path[-1]] = way["supplied"]
+                        want = way["want"]
+                        if place == "nested":
+                            def body(x=opt):
+                                return x
+                            body.__name__ = body.__qualname__ = "probe_typed"
+                            subject = dataset(body)
+                        elif place == "namespace":
+                            subject = space
+                        else:
+                            subject = opt
+                        with runtime.handle(TypeValidationRequest, h):
+                            got = subject.evaluate(o)
+                        if place == "namespace":
+                            for part in path[1:]:
+                                got = got[part]
+                        mine = [1 for v, t in seen if (t is T or (not inspect.isclass(T) and type(t) is type(T) and t == T)) and v == want]
+                        # Any is also the type of an undeclared option (the inner option of an evaluatable default)
+                        need = 2 if (T is __import__("typing").Any and name == "evaluatable default") else 1
+                        ok = got == want and len(mine) >= need
+                        why = (f"evaluation returned {got!r}; the TypeValidationRequest handler saw {len(seen)} request(s), "
+                               f"{len(mine)} for this option's declared type and value (expected {need})") if not ok else ""
+                    except Exception as e:  # noqa
+                        ok, why = False, f"probe raised {type(e).__name__}: {e}"
+                    if not ok:
+                        where = {"direct": "", "nested": ", as a dependency of a dataset", "namespace": ", as a member of an evaluated namespace"}[place]
+                        out.append(dict(kind="sweep", desc=f"the type check of an Option declared with {tname} ({form}; {name}{where}) is not issued as a "
+                                                           f"TypeValidationRequest seen by an installed pass-through handler: {why}",
+                                        cls="labrea.option.Option", method=f"type-check/{tname}/{form}/{name}/{place}", finding=None))
+    return out
+
+
+# A dataset class (made by @datasetclass, or a bare subclass of one) is an Evaluatable whose __call__ is NOT evaluate():
+# calling it instantiates the class (type.__call__), bypassing the runtime.  Every consumer of a child expression must
+# therefore go through child.evaluate / .validate / .keys / .explain.  DC_CONTEXTS: every place of the public API that
+# takes a child expression.
+def _dc_contexts():
+    import labrea
+    from labrea import Coalesce, Map, Option, Switch, Template, Value, WithOptions, cached, case, dataset, datasetclass, interface, switch
+    from labrea.application import FunctionApplication, PartialApplication
+    from labrea.iterable import Iter
+    from labrea.logging import Logged
+    from labrea.pipeline import pipeline_step
+
+    def ident(x):
+        return x
+    C = collections.OrderedDict()
+
+    def ctx(name):
+        def deco(f):
+            C[name] = f
+            return f
+        return deco
+
+    @ctx("evaluated directly")
+    def _(c):
+        return c
+
+    @ctx("switch branch")
+    def _(c):
+        return switch(Option("KIND"), {"s": c, "n": None})
+
+    @ctx("switch default")
+    def _(c):
+        return switch(Option("NOPE", "zz"), {"n": None}, c)
+
+    @ctx("switch dispatch")
+    def _(c):
+        return Switch(c >> (lambda v: "k"), {"k": Value(1)}, Value(2))
+
+    @ctx("registered overload of a dataset")
+    def _(c):
+        def config():
+            return None
+        d = dataset.nocache(config, dispatch="KIND")
+        d.register("s", c)
+        return d
+
+    @ctx("overload of a cached dataset, reached through a dependent dataset")
+    def _(c):
+        def config():
+            return None
+        d = dataset(config, dispatch="KIND")
+        d.register("s", c)
+
+        def report(cfg=d):
+            return cfg
+        return dataset.nocache(report)
+
+    @ctx("default implementation: dispatch of a dataset evaluates to an unregistered alias")
+    def _(c):
+        def config(x=c):
+            return x
+        d = dataset.nocache(config, dispatch=Option("NOPE", "zz"))
+        d.register("n", Value(None))
+        return d
+
+    @ctx("interface implementation")
+    def _(c):
+        I = interface("KIND")(type("I", (), {"__annotations__": {"cfg": object}}))
+        I.implementation("s")(type("Impl", (), {"cfg": c}))
+        return I.cfg
+
+    @ctx("argument of a dataset")
+    def _(c):
+        def rep(x=c):
+            return x
+        return dataset.nocache(rep)
+
+    @ctx("argument of a cached dataset")
+    def _(c):
+        def rep(x=c):
+            return x
+        return dataset(rep)
+
+    @ctx("source of >>")
+    def _(c):
+        return c >> ident
+
+    @ctx("source of .apply()")
+    def _(c):
+        return c.apply(ident)
+
+    @ctx("source of .bind()")
+    def _(c):
+        return c.bind(lambda v: Value(v))
+
+    @ctx("source of a pipeline step")
+    def _(c):
+        return c >> pipeline_step(lambda v, k=Option("KIND"): v)
+
+    @ctx("coalesce member")
+    def _(c):
+        return Coalesce(c, Value(0))
+
+    @ctx("coalesce later member")
+    def _(c):
+        return Coalesce(Option("NOPE"), c)
+
+    @ctx("option default")
+    def _(c):
+        return Option("NOPE", c)
+
+    @ctx("case-when result")
+    def _(c):
+        return case(Option("KIND")).when(lambda k: k == "s", c).otherwise(Value(0))
+
+    @ctx("case-when default")
+    def _(c):
+        return case(Option("KIND")).when(lambda k: k == "n", Value(0)).otherwise(c)
+
+    @ctx("Iter member")
+    def _(c):
+        return Iter(c, Value(1))
+
+    @ctx("mapped expression")
+    def _(c):
+        return Map(c, {"Z": Value([1, 2])})
+
+    @ctx("inside WithOptions")
+    def _(c):
+        return WithOptions(c, {"UNRELATED": "w"})
+
+    @ctx("inside cached()")
+    def _(c):
+        return cached(c)
+
+    @ctx("inside Logged")
+    def _(c):
+        return Logged(c, pylogging.DEBUG, "labrea.verif", "probe")
+
+    @ctx("argument of a function application")
+    def _(c):
+        return FunctionApplication(ident, c)
+
+    @ctx("argument of a partial application")
+    def _(c):
+        return PartialApplication(lambda a, b: (a, b), c) >> (lambda f: f(1))
+
+    @ctx("template parameter")
+    def _(c):
+        return Template("x{:p:}", p=c >> (lambda v: "q"))
+
+    @ctx("member of another dataset class")
+    def _(c):
+        return datasetclass(type("Outer", (), {"__annotations__": {"inner": object}, "inner": c}))
+    return C
+
+
+def _dc_variants():
+    """name -> maker() -> (the dataset class, its exclusive member objects)"""
+    from labrea import Option, dataset, datasetclass
+
+    def plain():
+        rate, name = Option("RATE"), Option("NAME", "std")
+        k = datasetclass(type("Settings", (), {"__annotations__": {"rate": float, "name": str}, "rate": rate, "name": name}))
+        return k, [rate, name]
+
+    def with_dataset_member():
+        rate = Option("RATE")
+
+        def twice(r=rate):
+            return 2 * r
+        ds = dataset.nocache(twice)
+        k = datasetclass(type("Settings", (), {"__annotations__": {"double": float}, "double": ds, "label": "x"}))
+        return k, [ds, rate]
+
+    def bare_subclass():
+        rate, name = Option("RATE"), Option("NAME", "std")
+        base = datasetclass(type("Base", (), {"__annotations__": {"rate": float}, "rate": rate}))
+        k = type(base)("Settings", (base,), {"__annotations__": {"name": str}, "name": name})
+        return k, [rate, name]
+    return collections.OrderedDict([("@datasetclass", plain), ("@datasetclass with a dataset member", with_dataset_member),
+                                    ("bare subclass of a dataset class", bare_subclass)])
+
+
+def _dc_render(v, depth=0):
+    from labrea.types import Evaluatable
+    if hasattr(v, "_repr_options") and not inspect.isclass(v):
+        names = sorted(n for n in dir(type(v)) if not n.startswith("_") and n not in ("result",))
+        return ("instance", type(v).__name__, [(n, _dc_render(getattr(v, n, None), depth + 1)) for n in names
+                                                if not callable(getattr(v, n, None)) or isinstance(getattr(v, n, None), Evaluatable)])
+    if isinstance(v, Evaluatable):
+        return "<unevaluated expression>"
+    if isinstance(v, (list, tuple)):
+        return [_dc_render(x, depth + 1) for x in v]
+    if isinstance(v, dict):
+        return sorted((repr(k), _dc_render(x, depth + 1)) for k, x in v.items())
+    if hasattr(v, "__next__"):
+        return [_dc_render(x, depth + 1) for x in v]
+    return repr(v)
+
+
+def _dc_ask(obj, method, options):
+    try:
+        r = getattr(obj, method)(dict(options))
+        if method == "evaluate":
+            return ("ok", _dc_render(r))
+        if method == "validate":
+            return ("ok", None)
+        return ("ok", sorted(r))
+    except RecursionError:
+        return ("err", "RecursionError")
+    except Exception as e:  # noqa
+        return ("err", type(e).__name__)
+
+
+DC_OPTIONS = [("sufficient", {"KIND": "s", "RATE": 0.5}), ("a member's option is missing", {"KIND": "s", "NAME": "n"})]
+
+
+def dataset_class_probes(only=None):
+    """dataset classes as children of every consumer (DC_CONTEXTS) x variants of dataset class x dictionaries x the four
+    methods, cold and warm, under recording pass-through handlers for the four core request types:
+      (nesting)      a request for a member that belongs to the dataset class alone is only ever issued while a request
+                     for the dataset class itself is being served (the class is asked through the runtime, never called);
+      (transparency) the outcome is that of the plain run;
+      (substitution) evaluate with a handler answering a constant for the dataset class BY IDENTITY gives what the same
+                     context built around labrea.Value(constant) gives."""
+    from labrea import runtime
+    from labrea.types import Value
+    RT = request_types()
+    out = []
+    SUB = ("substituted",)
+    for cname, mk in _dc_contexts().items():
+        for vname, mkv in _dc_variants().items():
+            for oname, o in DC_OPTIONS:
+                for method in METHODS:
+                    for warm in (False, True):
+                        tag = f"dataset-class/{cname}/{vname}/{oname}/{method}/{'warm' if warm else 'cold'}"
+                        if only is not None and tag != only and not only.startswith(tag + "/"):
+                            continue
+                        why, finding = [], None
+                        try:
+                            k, members = mkv()
+                            g = mk(k)
+                            kp, _ = mkv()
+                            gp = mk(kp)
+                            if warm:
+                                _dc_ask(g, "evaluate", o)
+                                _dc_ask(gp, "evaluate", o)
+                            plain = _dc_ask(gp, method, o)
+                            open_, lost, seen_k = [], [], [0]
+                            table = {}
+                            for kind in ("E", "V", "K", "X"):
+                                d = runtime._DEFAULT_HANDLERS[RT[kind]]
+
+                                def h(req, _kind=kind, _d=d):
+                                    subj = getattr(req, SUBJECT_ATTR[_kind])
+                                    if subj is k:
+                                        seen_k[0] += 1
+                                    elif any(subj is m for m in members) and not any(s is k for s in open_):
+                                        lost.append(f"{_kind}-request for member {subj!r}")
+                                    open_.append(subj)
+                                    try:
+                                        return _d(req)
+                                    finally:
+                                        open_.pop()
+                                table[RT[kind]] = h
+                            with runtime.handle(table):
+                                handled = _dc_ask(g, method, o)
+                            if lost:
+                                why.append(f"{method}(): {lost[0]} of the dataset class was issued while no request for the dataset class itself was being "
+                                           f"served ({seen_k[0]} request(s) for the class reached the handlers): the class was not asked through the runtime")
+                            if handled != plain:
+                                why.append(f"{method}() under pass-through handlers gives {handled!r:.150}, the plain run {plain!r:.150}")
+                            if method == "evaluate" and not warm:
+                                k2, _ = mkv()
+                                g2 = mk(k2)
+                                d = runtime._DEFAULT_HANDLERS[RT["E"]]
+
+                                def sub(req, _k=k2, _d=d):
+                                    return SUB if req.evaluatable is _k else _d(req)
+                                stable = {RT["E"]: sub}
+                                zone = []          # a validate / keys / explain request on the substituted class itself raises (C18-K)
+                                for kind in ("V", "K", "X"):
+                                    def hz(req, _kind=kind, _d=runtime._DEFAULT_HANDLERS[RT[kind]], _k=k2):
+                                        try:
+                                            return _d(req)
+                                        except BaseException:
+                                            if getattr(req, SUBJECT_ATTR[_kind]) is _k:
+                                                zone.append(_kind)
+                                            raise
+                                    stable[RT[kind]] = hz
+                                with runtime.handle(stable):
+                                    got = _dc_ask(g2, "evaluate", o)
+                                want = _dc_ask(mk(Value(SUB)), "evaluate", o)
+                                if got != want and zone and not why:
+                                    finding = "C18-K"
+                                if got != want:
+                                    why.append(f"a handler answering {SUB!r} for the dataset class is not honoured: got {got!r:.150}, the same context around "
+                                               f"Value({SUB!r}) gives {want!r:.150}")
+                        except Exception as e:  # noqa
+                            why.append(f"probe raised {type(e).__name__}: {e}")
+                        if why:
+                            out.append(dict(kind="sweep", desc=f"a dataset class ({vname}) used as {cname}, dictionary {oname} ({o!r}), {'warm' if warm else 'cold'} graph: "
+                                                               + "; ".join(why), cls="labrea.datasetclass", method=tag, finding=finding))
     return out
 
 
@@ -965,7 +1374,31 @@ def sweep():
     violations += odd_handler_probes()
     violations += option_type_probes()
     violations += library_context_probes()
+    violations += dataset_class_probes()
     return rows, violations
+
+
+def probe_counts():
+    nt = len(declared_types())
+    nc, nv = len(_dc_contexts()), len(_dc_variants())
+    return dict(declared_option_types=nt, dataset_class_contexts=nc, dataset_class_variants=nv,
+                dataset_class_probes=nc * nv * len(DC_OPTIONS) * len(METHODS) * 2)
+
+
+def cap_families(viol, new=12, tagged=3):
+    """the directed probe families report one entry per probe: keep the first few of each family (replay re-runs the
+    whole sweep and looks the entry up by class / method, so nothing is lost)"""
+    out, count = [], {}
+    for v in viol:
+        fam = str(v.get("method", "")).split("/")[0]
+        if fam not in ("type-check", "dataset-class"):
+            out.append(v)
+            continue
+        key = (fam, v["finding"] is None)
+        count[key] = count.get(key, 0) + 1
+        if count[key] <= (new if v["finding"] is None else tagged):
+            out.append(v)
+    return out, {f"{fam}:{'new' if isnew else 'recorded finding'}": n for (fam, isnew), n in count.items()}
 
 
 def coq_bool(b):
@@ -1324,6 +1757,7 @@ def run(ctx):
         STATS[k] = 0
     # (i) reflection
     rows, sweep_viol = sweep()
+    sweep_viol, probe_failures = cap_families(sweep_viol)
     violations += sweep_viol
     ok, err = discharge_obligation(ctx, rows)
     if not ok:
@@ -1501,13 +1935,22 @@ def run(ctx):
                 "chains of 3, a derivative of the dispatching / of the outer dataset, derivatives as call arguments and as arguments of another "
                 "dataset), and those graphs under recording pass-through handlers (all four methods; clause: a dataset body that runs was asked "
                 "for as an EvaluateRequest on that dataset object or a derivative of it). Nesting stream: operations inside labrea.cache.disabled() / labrea.logging.disabled() with the "
-                "recording or substituting handlers installed outside, inside or between them.",
+                "recording or substituting handlers installed outside, inside or between them. Directed probe families of the sweep: option type "
+                "checks for every kind of declared type (a class, builtin classes, typing generics / unions / Optional / Literal / Callable / Any / "
+                "TypeVar / NewType, PEP 585 and PEP 604 forms, None, a string annotation) x how it was declared (type= keyword, Option[T], annotated "
+                "member of a namespace, Option.auto / Option(KEY) inside a namespace, nested and inherited namespaces) x how the value arises x alone / "
+                "below a dataset / as a member of an evaluated namespace; dataset classes (@datasetclass, with a dataset member, a bare subclass) as the "
+                "child of every consumer of the public API (switch branch / default / dispatch, registered overloads, default implementation, interface "
+                "implementation, dataset arguments, >> / apply / bind / pipeline-step sources, coalesce, option default, case-when, Iter, Map, WithOptions, "
+                "cached, Logged, function / partial applications, template parameters, a member of another dataset class) x the four methods x a "
+                "sufficient and an insufficient dictionary x cold / warm: member requests nested in a request for the class, transparency, substitution "
+                "by identity against the same context around Value(constant).",
         "samples": samples,
         "traces_validated_against_impl": ops + len(sub_corr),
         "correspondence_mismatches": mism[:5],
         "violations": violations,
         "known": known,
-        "distribution": dict(classes_swept=len(rows), methods_probed=4 * len(rows), scenarios=n + n_nested, scenarios_nested_contexts=n_nested, ops=ops,
+        "distribution": dict(classes_swept=len(rows), methods_probed=4 * len(rows), directed_probe_families=probe_counts(), directed_probe_failures=probe_failures, scenarios=n + n_nested, scenarios_nested_contexts=n_nested, ops=ops,
                              ops_by_nesting=by_nest, substitution_by_nesting=sub_by_nest,
                              requests_compared_with_model=tokens, trace_agreement=dict(STATS), ops_by_handlers=by_handlers, requests_seen_by_kind=kinds_seen,
                              substitution_checks=sub_checks, substitution_answered=sub_answered, substitution_by_shape=by_shape,
@@ -1561,7 +2004,7 @@ def replay(ctx, payload):
     if payload.get("cls"):
         rows, viol = sweep()
         hit = [v for v in viol if v["cls"] == payload["cls"] and v["method"] == payload["method"]]
-        return bool(hit), dict(violations=hit[:3])
+        return any(v["finding"] is None for v in hit), dict(violations=hit[:3])
     if payload.get("shape") is not None:
         scn = cp.load_scn(payload["scenario_repr"])
         val = eval(payload["value"], {"S": core.S})
